@@ -29,7 +29,7 @@ FILL = ["The meeting is", "we met", "and then", "xyz", "report", "...", "on", "(
         "foo bar", "№ 5", "vs.", "e.g.", "—", "«»", "I"]
 NUMS = ["12", "2015", "3", "10:45", "1/2/2015", "31.12.99", "٣", "2015-05-12", "12.05.2015", "5", "1999", "23:59:59", "१२", "１２", "0"]
 N_TEXTS = {"quick": 12, "thorough": 300}
-TAPS = {"splits": [], "best": []}
+TAPS = {"splits": [], "best": [], "ts": []}
 
 
 def install_taps():
@@ -42,6 +42,11 @@ def install_taps():
         if exc is None:
             TAPS["best"].append(list(result[1]))
 
+    def ts_after(token, args, kwargs, result, exc):
+        if exc is None:
+            TAPS["ts"].append((list(result[0]), list(result[1])))
+
+    wrap("dateparser.languages.locale", "Locale.translate_search", None, ts_after, name="tap:translate_search")
     wrap("dateparser.search.search", "_ExactLanguageSearch.split_if_not_parsed", None, sp_after, name="tap:split_if_not_parsed")
     wrap("dateparser.search.search", "_ExactLanguageSearch.choose_best_split", None, cb_after, name="tap:choose_best_split")
 
@@ -131,6 +136,7 @@ def run_one(text, langs, adl, base):
         kw["settings"] = {"RELATIVE_BASE": datetime(2020, 2, 29, 12, 0)}
     TAPS["splits"][:] = []
     TAPS["best"][:] = []
+    TAPS["ts"][:] = []
     try:
         return search_dates(text, languages=langs, add_detected_language=adl, **kw), None
     except Exception as e:
@@ -152,6 +158,12 @@ def classify_blank():
                 misaligned = True
     if returned_blank and misaligned:
         return "split-misaligned"
+    # translate_search itself paired a non-blank translated chunk with a blank original chunk (token alignment lost
+    # when a simplification changes the number of tokens, e.g. zh noon -> '12:00')
+    for translated, original in TAPS["ts"]:
+        for t, o in zip(translated, original):
+            if len(t) > 2 and not norm_ws(o.strip(" .,:()[]-'")):
+                return "translate-search-blank-original"
     return "other-path"
 
 
